@@ -351,11 +351,12 @@ def prepare(repo, tier, seed):
         fh.write('\n#[cfg(all(test, hpbf_verif_dump))]\n#[path = "%s"]\nmod verif_u6_dump;\n' % dump_path)
     env = dict(os.environ, CARGO_NET_OFFLINE="true", RUSTFLAGS="--cfg hpbf_verif_dump",
                CARGO_TARGET_DIR=os.path.join(repo, "target_native"))
-    p = subprocess.run(["cargo", "test", "--offline", "--lib", "verif_u6_dump", "--", "--nocapture", "--test-threads", "1"],
+    # (--exact: the module is called verif_u6_dump, too, so a plain filter would also select the CPU test)
+    p = subprocess.run(["cargo", "test", "--offline", "--lib", "exec::basejit::codegen::verif_u6_dump::verif_u6_dump", "--", "--exact", "--nocapture", "--test-threads", "1"],
                        cwd=repo, env=env, capture_output=True, text=True, timeout=1500)
     # the CPU run executes generated machine code: its own process, so that a crash of wrong code
     # cannot take the dump with it
-    pc = subprocess.run(["cargo", "test", "--offline", "--lib", "verif_u6_cpu", "--", "--nocapture", "--test-threads", "1"],
+    pc = subprocess.run(["cargo", "test", "--offline", "--lib", "exec::basejit::codegen::verif_u6_dump::verif_u6_cpu", "--", "--exact", "--nocapture", "--test-threads", "1"],
                         cwd=repo, env=env, capture_output=True, text=True, timeout=1500)
     global CPU_RESULTS
     CPU_RESULTS = {}
